@@ -35,6 +35,12 @@ theorem ifoldl_inv (ops : List IOp) (hf : IFaithful ops = true) (s : St) (h : In
     simp only [IFaithful, List.all_cons, Bool.and_eq_true] at hf
     exact ih (by simpa [IFaithful] using hf.2) _ (istep_inv o hf.1 h)
 
+theorem ifaithful_take (h : List IOp) (k : Nat) (hf : IFaithful h = true) : IFaithful (h.take k) = true := by
+  unfold IFaithful at hf ⊢
+  rw [List.all_eq_true] at hf ⊢
+  intro o ho
+  exact hf o (List.mem_of_mem_take ho)
+
 theorem runI_inv (ops : List IOp) (hf : IFaithful ops = true) : Inv (runI ops) := ifoldl_inv ops hf _ init_inv
 
 /-- an atomic `run` of the status model is `select` followed at once by `complete` (no `--always-execute`, task not
